@@ -122,7 +122,14 @@ var scripted = []string{"g1", "n1", "n2", "p1", "g2", "na"}
 var real = []string{"runtimedoc", "deepcopy", "defaulter"}
 
 func spec(dir string, entry []string, all bool, order []string) pipe.Spec {
+	// the same global tags in every run, whichever generators take part (tags of absent generators are
+	// inert): what a generator sees through Context.Doc must not differ between the runs compared
 	globals := map[string][]string{}
+	for _, g := range append(append([]string{}, scripted...), real...) {
+		if g != "na" { // "na" is enabled by package p's own doc tag only
+			globals["gengo:"+g] = []string{"true"}
+		}
+	}
 	var gens []pipe.GenScript
 	var reals []string
 	for _, g := range order {
@@ -147,6 +154,11 @@ func spec(dir string, entry []string, all bool, order []string) pipe.Spec {
 			continue
 		}
 		gs := pipe.GenScript{Name: g, Stateful: true, QuietPkgs: []string{modPath + "/o"}, Default: pipe.Action{Render: "var V_$T_$G = \"$P\"\n", Imports: []string{"x.io/dep/$T", "y.io/other/dep"}}}
+		if g == "g1" {
+			// asks Context.Doc about the types of the fields (r and s have fields of types of p, q and r; p has a
+			// package-level tag of its own): the answer is rendered and must not depend on who asked before
+			gs.Default.DocOfFieldTypes = true
+		}
 		if g == "g2" {
 			// a generator that registers deferred callbacks and imports per type
 			gs.Default.Defers = []pipe.Action{{Render: "var D_$T_$G = 1\n"}}
